@@ -102,7 +102,12 @@ impl<'a> Gen<'a> {
 
     fn num_lit(&mut self) -> String {
         let luau = self.f.luau;
-        match self.rng.below(if luau { 14 } else { 10 }) {
+        match self.rng.below(if luau { 19 } else { 10 }) {
+            14 => "1_000.25".into(),
+            15 => "2_5e-1".into(),
+            16 => "0.000_1".into(),
+            17 => "1_0e+2".into(),
+            18 => "0xFF_FF".into(),
             0 => "0".into(),
             1 => "1".into(),
             2 => "2".into(),
@@ -707,11 +712,28 @@ impl<'a> Gen<'a> {
             36 if self.f.luau => {
                 // `//` first where `math` is the library, then where a parameter / local shadows it
                 self.line("local function half(n) return n // 2 end");
-                match self.rng.below(2) {
+                match self.rng.below(4) {
+                    2 => {
+                        // the caching idiom `local math = math`, the local re-assigned later: the lowered code must not
+                        // go through the program's variable
+                        self.line("local function cached(n) local math = math math = { floor = function(v) ext_p(\"user floor\", v) return -1 end } return n // 2 end");
+                        self.line("ext_p(cached(7))");
+                        self.line("local function scaled(m, n) return (n * m.factor) // 3 end");
+                    }
+                    3 => {
+                        self.line("local function shown(v) local tostring = tostring local string = string tostring = function() return \"mine\" end string = { format = function() return \"mine\" end } return `<{v}>` end");
+                        self.line("ext_p(shown(3))");
+                        self.line("local function scaled(m, n) return (n * m.factor) // 3 end");
+                    }
                     0 => self.line("local function scaled(math, n) return (n * math.factor) // 3 end"),
                     _ => self.line("local function scaled(m, n) local math = m return (n * math.factor) // 3 end"),
                 }
                 self.line("ext_p(half(9), scaled({ factor = 2, floor = function(v) ext_p(\"user floor\", v) return -1 end }, 10))");
+            }
+            39 if self.f.luau => {
+                // a result that is false at run time next to a nil else: false and nil are different values
+                self.line("local fv = ext_b(1) == ext_b(1) and false");
+                self.line("ext_p(if ext_n(1) then fv else nil, if fv then 1 elseif ext_n(2) then fv else nil, (if ext_n(3) then fv else nil) == false)");
             }
             37 => {
                 // sibling functions with nested local functions of the same name, then a fresh local
